@@ -176,6 +176,10 @@ def eval_inv(eng, text, fr, old=None):
     return eng.truth(eng.eval_spec(text, env, fr.modname, old=old or getattr(fr, "old_state", None), old_env=getattr(fr, "entry_env", None)))
 
 
+def eval_inv_value(eng, text, fr):
+    return eng.eval_spec(text, dict(fr.env), fr.modname, old=getattr(fr, "old_state", None), old_env=getattr(fr, "entry_env", None))
+
+
 def assume_invs(eng, spec, fr):
     eng.assuming = True
     try:
@@ -318,6 +322,19 @@ def exec_for(eng, node, fr):
         raise OutOfSubset("for-loop %s over an abstract list needs an invariant" % label, node)
     idx_name = spec.index or "_i"
     fr.env[idx_name] = VInt(0)
+    its = getattr(spec, "iterates", None)
+    if its:
+        # (name, separator, source text): the collection walked by this loop IS source.split(separator) -- decided on the provenance the
+        # list model carries (which builtin produced it, from which string) and an SMT equality on the source string
+        nm, sep, src = its
+        so = getattr(m, "split_of", None)
+        if so is not None and so[1] == sep:
+            goal = eng.force(so[0]).t == eng.force(eval_inv_value(eng, src, fr)).t
+        elif so is not None or m.tag == "splitlines":
+            goal = z3.BoolVal(False)          # cut at other places than `sep` (another separator, or every line boundary Python knows)
+        else:
+            raise OutOfSubset("for-loop %s: cannot tell how the iterated collection was cut (expected %s.split(%r))" % (label, src, sep), node)
+        eng.oblige("%s/at-entry:%s" % (label, nm), goal, clause="the loop walks exactly %s.split(%r)" % (src, sep), kind="loop-inv")
     for nm, text in spec.invariants:
         eng.oblige("%s/inv-entry:%s" % (label, nm), eval_inv(eng, text, fr), clause=text, kind="loop-inv")
     for nm, text in getattr(spec, "entry_only", []):
